@@ -337,13 +337,16 @@ def run(ctx):
                     if taken_set:
                         return True
             return False
+        # the layout comparison decides "text only under flags & 1, colour only under flags & 2" for every spelling the schedule
+        # understands (if / match / cond.then(|| ..)); the CFG rule below is kept for reads made directly in this body
+        import layout as _layout
+        import spec as _SP
+        _layout.check_layout(ctx, _SP.load_spec(), u.name, 'USER_DATA', rule='S5')
         strs = q.calls(u, common.READER + 'string')
-        ctx.floor('string reads in parse_userdata_chunk', len(strs), 1)
         for c in strs:
             ok = flag_guard(c.bb, 1)
             ctx.inst('S5', 'text', ok, 'text is read %s flags & 1' % ('only under' if ok else 'NOT under'), c.span, key=u.name + '|S5|text')
         bys = q.calls(u, common.READER + 'byte')
-        ctx.floor('colour byte reads', len(bys), 4)
         for c in bys:
             ok = flag_guard(c.bb, 2)
             ctx.inst('S5', 'color', ok, 'colour byte is read %s flags & 2' % ('only under' if ok else 'NOT under'), c.span,
@@ -352,10 +355,15 @@ def run(ctx):
         ok = rt[0] == 'agg' and rt[2] == 'UserData'
         if ok:
             f = dict(rt[3])
-            ta = alts(f['text'])
-            ca = alts(f['color'])
-            ok_t = sorted(x[2] if x[0] == 'agg' else '?' for x in ta) == ['None', 'Some'] and any(
-                some_payload(x) is not None and common.is_read(some_payload(x), ('string',)) for x in ta)
+            ta = alts(q.expand(f['text'], fx, 2, _layout.noinl(fx)))
+            ca = alts(q.expand(f['color'], fx, 2, _layout.noinl(fx)))
+            def text_alt(x):
+                # Some(string read); the Some wrapper may have been erased when the value passed through `transpose()?`
+                if x[0] == 'agg' and x[2] == 'None':
+                    return 'None'
+                pl = some_payload(x) if x[0] == 'agg' and x[2] == 'Some' else x
+                return 'Some' if pl is not None and common.is_read(pl, ('string',)) else '?'
+            ok_t = sorted(text_alt(x) for x in ta) == ['None', 'Some']
             ok_c = sorted(x[2] if x[0] == 'agg' else '?' for x in ca) == ['None', 'Some']
             rg = [some_payload(x) for x in ca if some_payload(x) is not None]
             if ok_c and rg:
